@@ -89,14 +89,7 @@ def sv_definitions(ctx) -> None:
     ok2 = s.count("(hamiltonian * state.data)") == 2 and "vdot" in s
     ctx.ob("OBSDEF", "sv energy second moment", f.loc(), ok2,
            "second moment = <Hψ|Hψ>" if ok2 else f"second moment returns {s[:100]}")
-    # occupation: level 1 slice of each qubit
-    f, ps = _ret(ctx, SCB + "qubit_occupation_sv_impl")
-    st = [e for p in ps for e in p.events if e.kind == "setitem" and "occupation" in show(e.target[0]) or
-          (e.kind == "setitem" and strip_typed(e.target[0])[0] == "call")]
-    oks = any("[(:, 1" in show(e.value) or "select(1, 1)" in show(e.value) for e in st)
-    ctx.ob("OBSDEF", "sv occupation", f.loc(), oks,
-           "occupation_i = ‖ψ restricted to qubit i in level 1‖²" if oks else
-           f"occupation entries are {[show(e.value)[:60] for e in st][:2]}")
+    # occupation / correlation: decided by rules/axes.py (OBSDEF-axis), which replaced a textual test here
     # Hamiltonian energy
     f, ps = _ret(ctx, "emu_sv.hamiltonian.RydbergHamiltonian.expect")
     s = show(ps[0].retval)
